@@ -165,6 +165,13 @@ pub fn names_for_rule(rule: &str) -> Vec<String> {
         out.push(format!("w.{i}"));
         out.push(format!("v.w.{i}"));
         out.push(format!("u.v.w.{i}"));
+        // deep names: 4..=12 further labels in front (the table walk has one step per label; a
+        // walk that is bounded, or keeps offsets relative to the wrong end, shows only here)
+        let mut deep = format!("u.v.w.{i}");
+        for k in 4..=12 {
+            deep = format!("l{k}.{deep}");
+            out.push(deep.clone());
+        }
     }
     out
 }
@@ -416,7 +423,7 @@ pub fn run(ctx: &Ctx) -> Result<Run, String> {
     let rules = psl.rules.len();
     let mut run = Run::from_stats(
         "exploration",
-        "a second, hand-encoded table (com, corp, intra.corp, *.lab, !gate.lab, test) behind the same generic ListProvider, looked up before, between (every ordered pair default-name/tiny-name on one thread) and after the default-table lookups and compared with the reference matcher over its own rules; every rule of public_suffix_list.dat (A-label form; wildcards instantiated with two labels and their base, exceptions without '!') as-is, with its leading label removed/replaced and with 1..3 labels prepended, compared on public_suffix / effective_tld_plus_one / is_effective_tld with a textbook PSL matcher over the .dat file; half of those names again with Unicode labels prepended (label counts must agree); every rule with each of the 64 most frequent labels of the list (thorough: every distinct label of the list) and the labels of its 4 (8) neighbours in table order in front of it; for every rule an ordered sequence of five lookups on one thread whose names share labels at different levels (reversed rule, rule, repeated top label); plus all strings over {c,k,o,m,u,w,.,A,é} up to the stated length and long/odd names incl. the three other IDNA label separators (U+3002, U+FF0E, U+FF61) in place of a dot of fixed and rule-derived names (structural checks always, equality for canonical lower-case ASCII names). Non-trivial = a canonical name whose prevailing rule is an explicit rule of the list",
+        "a second, hand-encoded table (com, corp, intra.corp, *.lab, !gate.lab, test) behind the same generic ListProvider, looked up before, between (every ordered pair default-name/tiny-name on one thread) and after the default-table lookups and compared with the reference matcher over its own rules; every rule of public_suffix_list.dat (A-label form; wildcards instantiated with two labels and their base, exceptions without '!') as-is, with its leading label removed/replaced and with 1..12 labels prepended, compared on public_suffix / effective_tld_plus_one / is_effective_tld with a textbook PSL matcher over the .dat file; half of those names again with Unicode labels prepended (label counts must agree); every rule with each of the 64 most frequent labels of the list (thorough: every distinct label of the list) and the labels of its 4 (8) neighbours in table order in front of it; for every rule an ordered sequence of five lookups on one thread whose names share labels at different levels (reversed rule, rule, repeated top label); plus all strings over {c,k,o,m,u,w,.,A,é} up to the stated length and long/odd names incl. the three other IDNA label separators (U+3002, U+FF0E, U+FF61) in place of a dot of fixed and rule-derived names (structural checks always, equality for canonical lower-case ASCII names). Non-trivial = a canonical name whose prevailing rule is an explicit rule of the list",
         true,
         stats,
     );
